@@ -24,7 +24,7 @@ for m in sorted(glob.glob('/verif/seeded/%s?/meta.json'%ID)):
     d=json.load(open(m))
     used.append(' - '+d.get('short',d.get('summary',''))[:200]+' ('+', '.join(d.get('files',[]))+')')
 t=open('/verif/tools/wave_prompt.tmpl').read()
-open('/tmp/mut/%s.prompt.txt'%ID,'w').write(t.replace('@ID@',ID).replace('@PROP@','\n'.join(txt)).replace('@USED@','\n'.join(used)))
+open('/tmp/mut/%s.prompt.txt'%ID,'w').write(t.replace('@A@',os.environ.get('WAVE_A','k')).replace('@B@',os.environ.get('WAVE_B','l')).replace('@ID@',ID).replace('@PROP@','\n'.join(txt)).replace('@USED@','\n'.join(used)))
 PY
   echo "prepared $ID"
 done
